@@ -40,6 +40,39 @@ def run(R):
     reach = P.reachable(rules_sites_roots(R))
     inert = E.inert_fields(P, ENG_ADT, reach)
 
+    def via_outcome(f, sw1, adm1, rej1, witness):
+        """the test's outcome is first stored (a bool flag, an Option around the row, an outcome enum) and branched on later"""
+        for sw2 in sorted(f.reach):
+            info = F.switch_info(f, sw2)
+            if not info or sw2 == sw1 or not f.dominates(sw1, sw2):
+                continue
+            if info[0] == "discr" and not [e for e in info[1]["pl"]["p"] if e != "*"]:
+                vb = F._variant_value_blocks(f, info[1]["pl"]["l"])
+                names = dict((dv, n_) for dv, n_ in info[1].get("variants", []))
+            elif info[0] == "bool" and info[1].get("k") in ("copy", "move") and not info[1]["pl"]["p"]:
+                fb = F._flag_value_blocks(f, info[1]["pl"]["l"])
+                vb = {"1": fb[True], "0": fb[False]} if fb else None
+                names = {"0": "0"}
+            else:
+                continue
+            if not vb:
+                continue
+            adm_vs = [v for v, bs in vb.items() if bs and all(f.dominates(adm1, b) for b in bs)]
+            rej_vs = [v for v, bs in vb.items() if bs and all(f.dominates(rej1, b) for b in bs)]
+            if len(adm_vs) != 1 or len(adm_vs) + len(rej_vs) != len([v for v, bs in vb.items() if bs]):
+                continue
+            tg = dict(info[2])
+            if info[0] == "discr":
+                lab = [l_ for l_, n_ in names.items() if n_ == adm_vs[0]]
+                t_adm = tg.get(lab[0], tg.get("otherwise")) if lab else None
+                t_rej = [b for l_, b in tg.items() if b != t_adm]
+            else:
+                t_adm = tg.get("otherwise") if adm_vs[0] == "1" else tg.get("0")
+                t_rej = [tg.get("0") if adm_vs[0] == "1" else tg.get("otherwise")]
+            if t_adm is not None and t_rej and F.edge_target_unique(f, sw2, t_adm):
+                return (sw2, t_adm, t_rej[0], witness)
+        return None
+
     def semantic_admit(f):
         """the admission test spelled out instead of calling Row::any_result(): `columns.iter().any(is_not_null)` / `find` / `position` /
         `!all(is_null)` over the extracted row, branched on directly or through an outcome value (a bool flag or an enum such as
@@ -90,39 +123,12 @@ def run(R):
                 sw1, adm1, rej1 = g[0], g[1], g[2][0]
             if F.edge_target_unique(f, sw1, adm1) and not _is_outcome_assignment(f, adm1):
                 return (sw1, adm1, rej1, c)
-            # through an outcome value assigned in the arms
-            for sw2 in sorted(f.reach):
-                info = F.switch_info(f, sw2)
-                if not info or sw2 == sw1 or not f.dominates(sw1, sw2):
-                    continue
-                if info[0] == "discr" and not [e for e in info[1]["pl"]["p"] if e != "*"]:
-                    vb = F._variant_value_blocks(f, info[1]["pl"]["l"])
-                    names = dict((dv, n_) for dv, n_ in info[1].get("variants", []))
-                elif info[0] == "bool" and info[1].get("k") in ("copy", "move") and not info[1]["pl"]["p"]:
-                    fb = F._flag_value_blocks(f, info[1]["pl"]["l"])
-                    vb = {"1": fb[True], "0": fb[False]} if fb else None
-                    names = {"0": "0"}
-                else:
-                    continue
-                if not vb:
-                    continue
-                adm_vs = [v for v, bs in vb.items() if bs and all(f.dominates(adm1, b) for b in bs)]
-                rej_vs = [v for v, bs in vb.items() if bs and all(f.dominates(rej1, b) for b in bs)]
-                if len(adm_vs) != 1 or len(adm_vs) + len(rej_vs) != len([v for v, bs in vb.items() if bs]):
-                    continue
-                tg = dict(info[2])
-                if info[0] == "discr":
-                    lab = [l_ for l_, n_ in names.items() if n_ == adm_vs[0]]
-                    t_adm = tg.get(lab[0], tg.get("otherwise")) if lab else None
-                    t_rej = [b for l_, b in tg.items() if b != t_adm]
-                else:
-                    t_adm = tg.get("otherwise") if adm_vs[0] == "1" else tg.get("0")
-                    t_rej = [tg.get("0") if adm_vs[0] == "1" else tg.get("otherwise")]
-                if t_adm is not None and t_rej and F.edge_target_unique(f, sw2, t_adm):
-                    return (sw2, t_adm, t_rej[0], c)
+            vo = via_outcome(f, sw1, adm1, rej1, c)
+            if vo is not None:
+                return vo
         return None
 
-    def direct_admit(f):
+    def direct_admit(f, plain_edge=False):
         """(switch, admitted target, rejected target, any_result call) when f extracts a row and branches on its any_result()"""
         ex = PR.calls_matching(f, EXTRACT)
         ar = PR.calls_matching(f, ANY_RESULT)
@@ -133,15 +139,18 @@ def run(R):
         if not any(o.kind == "call" and o.call is ex[0] for o in F.origins(f, ar[0].args[0], depth=6)):
             return None
         g = PR.bool_guard(f, ar[0])
-        if g is None or not F.edge_target_unique(f, g[0], g[1]):
+        if g is None:
             return None
-        return (g[0], g[1], g[2], ar[0])
+        if F.edge_target_unique(f, g[0], g[1]) and (plain_edge or not _is_outcome_assignment(f, g[1])):
+            return (g[0], g[1], g[2], ar[0])
+        # `match row.any_result() { true => Some(row), false => None }` of an inlined admission helper, tested by the caller
+        return via_outcome(f, g[0], g[1], g[2], ar[0])
 
     def is_admission_helper(h):
         """h returns Some(row) exactly on the admitted edge of its own any_result() test"""
         if not h.local_ty(0).startswith("core::option::Option<sqlgrep::data_model::Row"):
             return False
-        d = direct_admit(h)
+        d = direct_admit(h, plain_edge=True)
         if d is None:
             return False
         somes = [i for i, st in h.stmts() if st["k"] == "assign" and st["rv"]["k"] == "aggr" and st["rv"].get("variant") == "Some"
@@ -335,8 +344,8 @@ def _is_outcome_assignment(f, bb):
     if b["term"]["k"] != "goto":
         return False
     sts = [st for st in b["stmts"] if st["k"] == "assign"]
-    return bool(sts) and all(not st["pl"]["p"] and ((st["rv"]["k"] == "aggr" and not st["rv"]["ops"]) or
-                                                   (st["rv"]["k"] == "use" and st["rv"]["op"].get("k") == "const")) for st in sts)
+    return bool(sts) and all(not st["pl"]["p"] and st["rv"]["k"] in ("aggr", "use") for st in sts) and \
+        any(st["rv"]["k"] == "aggr" or (st["rv"]["k"] == "use" and st["rv"]["op"].get("k") == "const") for st in sts)
 
 
 def _any_result_loop_problem(f):
